@@ -87,26 +87,33 @@ def build_choices(spec, generate):
     return ch, cfg, ops
 
 
-def run_world(spec, generate, world_cls, extra_props=()):
-    spec = dict(spec)
-    spec["seed_int"] = derive_seed(spec.get("seed", 0), spec["property"], spec.get("run", 0)) & 0xFFFFFFFF
-    ch, cfg, ops = build_choices(spec, generate)
-    if spec.get("cfg_override"):
-        cfg = dict(cfg, **spec["cfg_override"])
+def execute_world(world_cls, spec, ch, cfg, ops, keep_log=False):
+    """Run one world to completion; -> (world, harness error or None)."""
     world = world_cls(spec, ch, cfg, ops)
+    world.log.keep_all = keep_log
     harness = None
     try:
         try:
             world.loop.run_until_complete(world.main())
         except (SimDeadlock, SimBudgetExceeded) as exc:
             harness = world.on_budget(exc) if hasattr(world, "on_budget") else "%s: %s" % (type(exc).__name__, exc)
-        return finish(world, spec, ch, cfg, ops, harness)
     finally:
         try:
             if hasattr(world, "cleanup"):
                 world.cleanup()
         finally:
             teardown_loop(world.loop)
+    return world, harness
+
+
+def run_world(spec, generate, world_cls, extra_props=()):
+    spec = dict(spec)
+    spec["seed_int"] = derive_seed(spec.get("seed", 0), spec["property"], spec.get("run", 0)) & 0xFFFFFFFF
+    ch, cfg, ops = build_choices(spec, generate)
+    if spec.get("cfg_override"):
+        cfg = dict(cfg, **spec["cfg_override"])
+    world, harness = execute_world(world_cls, spec, ch, cfg, ops)
+    return finish(world, spec, ch, cfg, ops, harness)
 
 
 def finish(world, spec, ch, cfg, ops, harness):
